@@ -168,7 +168,39 @@ func canFollow(kind int, a, b lexeme) bool {
 	return false
 }
 
+// c13Boundary: lexemes whose neighbours matter (dots, exponent-like identifiers, signs, slashes, quotes), written
+// next to each other in every order wherever the grammar says they cannot merge
+func c13Boundary(kind int) []lexeme {
+	w, sy, in, fl, q, cm := tokenizers.Word, tokenizers.Symbol, tokenizers.Integer, tokenizers.Float, tokenizers.Quoted, tokenizers.Comment
+	out := []lexeme{{"e1", w, "identifier"}, {"E2x", w, "identifier"}, {"e", w, "identifier"}, {"x", w, "identifier"}, {"rec", w, "identifier"}, {"é", w, "identifier"},
+		{"1", in, "integer"}, {"12", in, "integer"}, {"1.5", fl, "decimal"}, {"3.", fl, "decimal"}, {".5", fl, "decimal"},
+		{"+", sy, "symbol1"}, {"*", sy, "symbol1"}, {"(", sy, "symbol1"}, {")", sy, "symbol1"}, {"<=", sy, "symbol2"}, {"<", sy, "symbol1"}, {"=", sy, "symbol1"}, {">", sy, "symbol1"},
+		{"'s'", q, "quoted"}, {" ", tokenizers.Whitespace, "whitespace"}}
+	if kind == 1 {
+		out = append(out, lexeme{".", sy, "symbol1"}, lexeme{"-", sy, "symbol1"}, lexeme{"/", sy, "symbol1"}, lexeme{"1e5", fl, "scientific"}, lexeme{"2E-3", fl, "scientific"},
+			lexeme{"/* c */", cm, "comment"}, lexeme{"not", tokenizers.Keyword, "keyword"}, lexeme{"\"q\"", w, "quoted"}, lexeme{"!=", sy, "symbol2"})
+	} else {
+		out = append(out, lexeme{"-1", in, "integer"}, lexeme{"-.5", fl, "decimal"}, lexeme{"# c", cm, "comment"}, lexeme{"<>", sy, "symbol2"}, lexeme{"a-b", w, "identifier"})
+	}
+	return out
+}
+
 func genC13(ctx *Ctx) {
+	for kind := 0; kind < 2; kind++ {
+		pool := c13Boundary(kind)
+		for _, a := range pool {
+			for _, b := range pool {
+				for _, c := range []lexeme{pool[3], pool[6]} {
+					if !canFollow(kind, a, b) || !canFollow(kind, b, c) {
+						continue
+					}
+					want := sx.L(sx.L(sx.N(a.typ), sx.S(a.text)), sx.L(sx.N(b.typ), sx.S(b.text)), sx.L(sx.N(c.typ), sx.S(c.text)))
+					ctx.Count("boundary-triple")
+					ctx.Input(sx.L(sx.N(kind), sx.I(0), sx.S(a.text+b.text+c.text), defaultCsvCfg, want), true)
+				}
+			}
+		}
+	}
 	for i := 0; i < ctx.N*3; i++ {
 		kind := ctx.Rnd.Intn(2)
 		ls := c13Lexemes(ctx, kind)
